@@ -126,6 +126,17 @@ class C09(Prop):
             for d in run.created_while_idle_available[:1]:
                 out.append({"oracle": "healthy-connection-not-reused", "method": None, "disc": "threads",
                             "step": d["step"], "detail": d})
+            # the scenario ends with a checkout: whatever had idled out by then is closed by then (the pool scans
+            # its idle connections from the oldest)
+            w = res.world
+            idle = scn["world"]["client_kwargs"].get("pool_idle_timeout", 0)
+            if idle and not out:
+                for sk in w.sockets:
+                    if not sk.closed and sk.last_io is not None and w.clock.now - sk.last_io > idle:
+                        out.append({"oracle": "idle-expired-connection-not-closed", "method": None, "disc": "threads",
+                                    "step": res.extra["sched"].step,
+                                    "detail": {"sock": sk.id, "idle_for": w.clock.now - sk.last_io, "timeout": idle}})
+                        break
         res.violations = out
         return res
 
